@@ -854,6 +854,12 @@ class Engine:
                     return Int(z3.BitVecVal(len(w.attrs["lit"]), 64), "usize")
                 if isinstance(w, Opaque) and w.ty == "scratchslice":
                     return Int(z3.BitVec("scratchlen_%d" % next(self.fresh), 64), "usize")
+                if isinstance(w, Ref) and len(w.addr) == 2 and w.addr[0] == "S" and self.statics.get(w.addr[1], {}).get("bytes") is not None:
+                    # a byte-string constant behind a `&[u8]` / `&str`: its length is the size of the allocation
+                    op = rv[2]
+                    lty = frame.fn.local_ty.get(op[1][1], "") if op and op[0] in ("move", "copy") and op[1][0] == "local" else ""
+                    if "[u8]" in lty or "str" in lty:
+                        return Int(z3.BitVecVal(self.statics[w.addr[1]]["size"], 64), "usize")
                 raise Unsupported("PtrMetadata of %r in %s (%r)" % (w, frame.fn.name[-60:], rv))
             raise Unsupported("unop " + rv[1])
         if k == "cast":
@@ -951,6 +957,7 @@ class Engine:
                 mode = self.loop_mode(fn, fr.bb) if callable(self.loop_mode) else self.loop_mode
                 if mode == "cut":
                     if cnt == 0:
+                        st.notes.pop("pk", None)      # generic iteration: whether a peeked byte is pending is unknown
                         # snapshot of the state in which the loop is ENTERED (base case of the inductive argument): scalar
                         # locals, cursor, and how much of the path condition / event log existed at that moment
                         st.notes["arrivals"] = st.notes.get("arrivals", ()) + ((fr.bb, {
@@ -1133,6 +1140,8 @@ class Engine:
         for rx, h in self.stubs:
             m = rx.search(callee)
             if m:
+                if callee.startswith("Parser::<") or "::parse_" in callee:
+                    st.notes.pop("pk", None)      # a stubbed sibling may read: what is pending afterwards is unknown
                 out = h(self, st, fr, callee, argv, m)
                 if out is NotImplemented:
                     continue
